@@ -33,6 +33,12 @@ func c13Single() []c13Spelling {
 		{"user comments", model.Style{Comments: true}, false},
 		{"multi-line annotation syntax on one line", model.Style{MultiLine: 1}, false},
 		{"multi-line annotations over several lines", model.Style{MultiLine: 2}, false},
+		{"multi-line annotations, note / end marker on a line of its own", model.Style{MultiLine: 3}, false},
+		{"multi-line annotations over several lines, CRLF", model.Style{MultiLine: 2, NL: "\r\n"}, false},
+		{"multi-line annotations, end marker on its own line, CRLF", model.Style{MultiLine: 3, NL: "\r\n"}, false},
+		{"multi-line annotations, end marker on its own line, CR", model.Style{MultiLine: 3, NL: "\r"}, false},
+		{"user comments, CRLF", model.Style{Comments: true, NL: "\r\n"}, false},
+		{"user comments, CR", model.Style{Comments: true, NL: "\r"}, false},
 		{"quoted rule names", model.Style{QuoteNames: true}, false},
 		{"trailing comma in the rule object", model.Style{TrailingComma: true}, false},
 		{"no blanks after colons", model.Style{TightColon: true}, false},
@@ -45,7 +51,7 @@ func c13Random(r *mon.Rng) c13Spelling {
 	st := model.Style{
 		NL:            mon.Pick(r, []string{"\n", "\n", "\r\n", "\r"}),
 		Indent:        mon.Pick(r, []string{"", "\t", "-", "    "}),
-		MultiLine:     r.Intn(3),
+		MultiLine:     r.Intn(4),
 		QuoteNames:    r.Bool(),
 		TrailingComma: r.Bool(),
 		Comments:      r.Bool(),
@@ -72,7 +78,7 @@ func shuffleRules(r *mon.Rng, s *model.Schema) *model.Schema {
 
 func c13Sizes(tier string) (units, per, random, docs int) {
 	if tier == "thorough" {
-		return 3000, 16, 6, 24
+		return 8000, 16, 6, 24
 	}
 	return 320, 8, 3, 16
 }
